@@ -56,5 +56,6 @@ def main():
         sh('git -C %s checkout -q -- . && git -C %s clean -fdq' % (WT, WT))
     if full:
         print('   pinned: %s   demo clean rc=%s   demo mutant rc=%s' % (out.get('pinned'), out.get('demo_clean_rc'), out.get('demo_mutant_rc')))
-    json.dump(out, open(os.path.join(d, 'try_result.json'), 'w'), indent=1)
+    os.makedirs('/tmp/mut-results', exist_ok=True)
+    json.dump(out, open(os.path.join('/tmp/mut-results', d.strip('/').replace('/', '_') + '.json'), 'w'), indent=1)
 main()
